@@ -109,6 +109,14 @@ M = [
     ('C15', 'revoke-uid-signs-wrong-uid', 'pgpy/pgp.py', "        return self._sign(target, sig, **prefs)", "        return self._sign(target if not isinstance(target, PGPUID) else next(iter(self.userids)), sig, **prefs)"),
     ('C15', 'primary-flag-inverted', 'pgpy/packet/subpackets/signature.py', "        _bytes += self.int_to_bytes(int(self.primary))", "        _bytes += self.int_to_bytes(int(not self.primary))"),
     ('C15', 'add-subkey-binds-with-wrong-primary', 'pgpy/pgp.py', "            if subject.is_primary:\n                _s = subject.subkeys[self.signer].hashdata\n\n            else:\n                _s = subject.hashdata", "            if subject.is_primary:\n                _s = subject.subkeys[self.signer].hashdata\n\n            else:\n                _s = subject.hashdata if self.type != SignatureType.PrimaryKey_Binding else subject._parent.hashdata"),
+    ('C12', 'salt-remembered-from-first-derivation', 'pgpy/packet/fields.py', "            hsalt = bytes(self.salt)\n", "            hsalt = self.__dict__.setdefault('_salt_seen', bytes(self.salt))\n"),
+    ('C16', 'key-flags-cached-on-first-use', 'pgpy/pgp.py', "            return {KeyFlags.Certify} | (user.selfsig.key_flags if user.selfsig else set())", "            return self.__dict__.setdefault('_flagcache', {KeyFlags.Certify} | (user.selfsig.key_flags if user.selfsig else set()))"),
+    ('C16', 'enforcement-off-last-subkey-back', 'pgpy/decorators.py', "                    _key = key\n", "                    pass\n"),
+    ('C03', 'ecdh-ciphertext-copy-back', 'pgpy/packet/fields.py', "        ct.c = self.c[:]\n", "        pass\n"),
+    ('C03', 'encrypted-data-copy-header-back', 'pgpy/packet/packets.py', "        skd.header = copy.copy(self.header)\n", ""),
+    ('C19', 'keyring-drops-second-half-in-one-blob', 'pgpy/pgp.py', "        [ keys.pop((getattr(self, 'fingerprint.keyid', '~'), None), t) for t in (True, False) ]", "        [ keys.pop((getattr(self.fingerprint, 'keyid', '~'), t), None) for t in (True, False) ]"),
+    ('C14', 'import-drops-identity-without-signature', 'pgpy/pgp.py', "                    # parent is likely the most recently parsed primary key\n                    keys[next(reversed(keys))] |= pgpobj\n", "                    if len(pgpobj._signatures):\n                        keys[next(reversed(keys))] |= pgpobj\n"),
+    ('C13', 'second-passphrase-reuses-salt', 'pgpy/packet/packets.py', "        self.s2k.salt = bytearray(os.urandom(8))", "        self.s2k.salt = SKESessionKeyV4.__dict__.get('_last') or bytearray(os.urandom(8))\n        SKESessionKeyV4._last = self.s2k.salt"),
 ]
 
 
@@ -157,7 +165,12 @@ def main(argv):
             shutil.rmtree(scratch, ignore_errors=True)
     # evidence files were rewritten by mutant runs: the caller re-runs the real checks afterwards
     surv = [r for r in results if r[2] not in ('killed',)]
-    json.dump([list(r) for r in results], open(os.path.join(ROOT, 'mutants_last.json'), 'w'), indent=1)
+    # a partial run updates its own rows and keeps the others
+    path = os.path.join(ROOT, 'mutants_last.json')
+    prev = {(r[0], r[1]): r for r in (json.load(open(path)) if os.path.exists(path) else [])}
+    prev.update({(r[0], r[1]): list(r) for r in results})
+    order = {(m[0], m[1]): i for i, m in enumerate(M)}
+    json.dump([list(prev[k]) for k in sorted(prev, key=lambda k: order.get(k, 10 ** 6)) if k in order], open(path, 'w'), indent=1)
     print('%d mutants, %d killed, %d not killed' % (len(results), len(results) - len(surv), len(surv)))
     return 1 if surv else 0
 
